@@ -150,7 +150,8 @@ func runC13(c *runCtx) {
 			d := 1 + r.Intn(rows-2)
 			bad := append([]string{}, lines...)
 			if kind == "ndjson" {
-				bad[d] = []string{`{"a":`, `[1,2`, `{"a":1}}`, `nope`, `{"a" 1}`, `{`, `[`, `"`, `{"a":1} {"a":2}`, `[3,4]x`, `1 apple`}[r.Intn(11)]
+				bad[d] = []string{`{"a":`, `[1,2`, `{"a":1}}`, `nope`, `{"a" 1}`, `{`, `[`, `"`, `{"a":1} {"a":2}`, `[3,4]x`, `1 apple`,
+					`{"b":"\u00G1"}`, `"\uZZZZ"`, `{"a":"\u12"}`, `["\x41"]`, `{"k\u00g0":1}`, `["\u00@0"]`, "[\"\\u00`0\"]", `{"a":tr}`, `{"a":nul}`}[r.Intn(20)]
 			} else {
 				bad[d] = bad[d] + sep + "extra"
 			}
